@@ -26,10 +26,10 @@ def patched(mod, name, value):
         setattr(mod, name, old)
 
 
-def reset_optimizer(env, cost, window=None):
+def reset_optimizer(env, cost, window=None, protocol=False):
     if env.mode != "float":
         from symx.models import optimize
-        optimize.reset(cost=cost, window=window)
+        optimize.reset(cost=cost, window=window, protocol=protocol)
 
 
 def candidate_positions(env, sp, k, narrow=False):
@@ -87,6 +87,10 @@ class C19Class(Harness):
                             continue
                         out.append(dict(GRIDS[g], g=g, modes=modes, width=width, refine=refine,
                                         _cost=(8 if refine else 1) * (1 + modes)))
+        # refinement with an optimiser that may stop unconverged (stub: solver-chosen success flag; real runs: max_nfev=1)
+        for g in ("c1", "polar", "sph"):
+            for modes in ((0, 1) if g != "c1" else (0,)):
+                out.append(dict(GRIDS[g], g=g, modes=modes, width="none", refine=True, proto=True, _cost=12))
         # refinement of a candidate of any size, up to one that covers every cell of the grid
         for g in ("c1", "polar", "sph"):
             for width in ("none", "sym"):
@@ -94,7 +98,7 @@ class C19Class(Harness):
         return out
 
     def install(self, env, cfg):
-        reset_optimizer(env, cost=False, window=F(1, 2))
+        reset_optimizer(env, cost=False, window=F(1, 2), protocol=bool(cfg.get("proto")))
 
     def sample(self, cfg, rng):
         sp = gridfam.spec_of(cfg)
@@ -120,7 +124,7 @@ class C19Class(Harness):
                 cands.append((p, env.real(f"r{k}", F(1, 4), 8)))
                 if k == 0:
                     env.cover("candidate covers every cell of the grid", cands[0][1] > 6)
-            elif refine and cfg["g"] != "c1":
+            elif refine and (cfg["g"] != "c1" or cfg.get("proto")):
                 p = conc_position(sp, k)
                 cands.append((p, env.const(F(3, 4) + F(k, 8))))
             else:
@@ -140,6 +144,8 @@ class C19Class(Harness):
             return fake
 
         kw = dict(modes=modes, interface_width=width, refine=refine)
+        if cfg.get("proto"):
+            kw["refine_args"] = dict(least_squares_params=dict(max_nfev=1))
         if modes > 0 and dim == 1:
             with patched(env.IA, "locate_droplets_in_mask", fake_locator(2)):
                 env.expect_raises("perturbation modes in one dimension raise the documented ValueError", (ValueError,),
